@@ -32,6 +32,7 @@ RULE += (' Also: with fixed per-consumer requests the source is never advanced b
 RULE += (' Also: a future-style source whose plain __anext__ starts the fetch when called (scenarios without cancellation).')
 RULE += (' Also: a synchronous non-iterator collection as tee source.')
 RULE += (' Also: a child asking for an item the source has already handed out receives it without a single suspension (boundary monitor, class sources, also without aclose).')
+RULE += (' Also: class-based sources that also offer (and refuse) the synchronous protocol.')
 ASSUMPTIONS = ["without a lock only non-suspending sources are claimed (as the property states)",
                "class-based cancellation-safe source: an item is consumed only after the last suspension of __anext__",
                "consumers close their child when they stop (owner closes what it advanced)"]
